@@ -1,6 +1,8 @@
 """C08  Truncated or failing input never fabricates data (cut-point and read-call fault enumeration)."""
 from __future__ import annotations
 
+import io
+
 from .. import engine, gen, lib, model
 from ..engine import case_detail, norm_or_err, outcome
 from ..streams import FaultyStream, InjectedFault, RecordingStream, SpinWatchdog
@@ -28,6 +30,14 @@ def judge_input(ctx, case, cfgd, cfg, T, inp, mask_len_L):
     base = run_stream(T, RecordingStream(inp))
     if base[0] != "ok":
         ctx.event("baseline_rejected")
+        try:
+            T(io.BytesIO(inp))
+        except Exception:  # noqa: BLE001
+            return
+        # the input is fine, the library wants something of the stream that the recording stream does not offer: nothing
+        # below would be judged -- that must not pass silently
+        ctx.violation("baseline", f"input-accepted-from-BytesIO-but-not-from-a-plain-file-like-object:{type(base[1]).__name__}",
+                      case_detail(case, cfg=cfgd, data=inp, error=lib.exc_sig(base[1])))
         return
     bval, e = norm_or_err(base[1], top)
     if e:
@@ -62,6 +72,14 @@ def judge_input(ctx, case, cfgd, cfg, T, inp, mask_len_L):
         if L is not None:
             keep |= {L, max(0, L - 1), min(c - 1, L + 1)}
         cuts = sorted(keep)
+    def plain(data, how):
+        # the cut input as the objects a caller has at hand (their length can be asked for, unlike the recording stream's)
+        try:
+            with engine.guard():
+                return ("ok", T(data) if how == "bytes" else T(io.BytesIO(data)) if how == "BytesIO" else T.reads(memoryview(data)), None)
+        except Exception as ex:  # noqa: BLE001
+            return ("err", ex, None)
+
     for k in cuts:
         r = run_stream(T, RecordingStream(inp[:k]))
         ctx.evaluation((case["text"], tuple(sorted(cfgd.items())), inp.hex(), "cut", k))
@@ -69,6 +87,21 @@ def judge_input(ctx, case, cfgd, cfg, T, inp, mask_len_L):
         if r[0] == "spin":
             viol("spin", "reader-spins-on-empty-reads", cut=k)
             continue
+        for how in ("bytes", "BytesIO", "memoryview"):
+            r2 = plain(bytes(inp[:k]), how)
+            ctx.event("cut_points_plain_inputs")
+            if r2[0] == "ok" and not has_eof:
+                got2, e2 = norm_or_err(r2[1], top)
+                if got2 != bval:
+                    viol("fabricated", "different-value-from-cut-input", cut=k, got=got2, full=bval, input_kind=how)
+                    break
+                if L is not None and k <= L:
+                    viol("fabricated", "value-returned-although-data-byte-missing", cut=k, got=got2, input_kind=how)
+                    break
+            elif r2[0] != r[0] and not has_eof:
+                viol("fabricated", "cut-input-accepted-or-refused-depending-on-the-input-kind", cut=k, input_kind=how,
+                     recording_stream=r[0], plain=r2[0])
+                break
         if r[0] == "ok":
             got, e = norm_or_err(r[1], top)
             if has_eof:
@@ -168,6 +201,26 @@ def check_case(ctx, case, rng):
         except model.ModelUnsupported:
             continue
         judge_input(ctx, case, cfgd, cfg, T, inp, (used, model.last_data_byte(mask)))
+
+
+def counted_tails(ctx, rng, reps):
+    """Structures that *end* in an array counted by an earlier field (nothing behind it would notice missing elements):
+    packed, byte-sliced, character and structure elements, one and two dimensions, counts through expressions."""
+    from ..gen import F, L_expr, L_fixed, N_array, N_char, N_int, N_struct, N_wchar
+
+    elems = [lambda: N_int("uint32"), lambda: N_int("int24"), lambda: N_char(), lambda: N_wchar(), lambda: N_int("uint8"),
+             lambda: N_struct([F("a", N_int("uint8")), F("b", N_int("uint16"))]), lambda: N_array(N_int("uint16"), L_fixed(2))]
+    for _ in range(reps):
+        for mk in elems:
+            expr = rng.choice(["n", "n & 3", "(n & 3) + 1", "n * 2"])
+            fields = [F("tag", N_int(rng.choice(["uint8", "uint16"]))), F("n", N_int("uint8"), len_src=True)]
+            if rng.random() < 0.4:
+                fields.append(F("mid", N_array(N_char(), L_expr("n & 1"))))
+            fields.append(F("val", N_array(mk(), L_expr(expr))))
+            case = gen.simple_case(fields)
+            case["named"] = {}
+            ctx.cell("structure-ends-in-a-counted-array")
+            check_case(ctx, case, rng)
 
 
 def eof_elements(ctx, rng, reps):
@@ -316,6 +369,8 @@ def run(ctx):
         eof_elements(ctx, ctx.rng("eof-elements"), 2 if not ctx.thorough else 20)
     if ctx.shard == 4:
         single_char_member_at_offset(ctx)
+    if ctx.shard % 8 == 6:
+        counted_tails(ctx, ctx.rng("counted-tails"), 2 if not ctx.thorough else 20)
     for i in range(N_CASES[ctx.tier]):
         if ctx.out_of_time():
             break
